@@ -8,6 +8,29 @@ TRUSTED_BASE = [
 ]
 
 PROPS = {
+    "C17": {
+        "modules": ["Replicon.Props.C17"],
+        "theorems": [
+            "Replicon.C17.C17_pop_forced",
+            "Replicon.C17.C17_exactly_once_in_order",
+            "Replicon.C17.C17_per_channel",
+            "Replicon.C17.C17_frame_roundtrip",
+            "Replicon.C17.C17_frame_defined",
+            "Replicon.C17.C17_frame_stream",
+        ],
+        "const_obligations": ["Consts.heapTieBreak (shape of TimedMessage::cmp + increasing sequence numbers in insert)", "Consts.frameHeader"],
+        "profiles": [{"name": "c17"}],
+        "rule": "c17: a real server app and a real client app connected through the example backend over loopback TCP (AuthMethod::None, no "
+                "ConditionerConfig); 0..48 sequence-numbered independent events of three types (= three ordered channels) with payload "
+                "sizes 0..1180 are emitted over 1..4 sender frames before the receiver runs a frame, in both directions; the per-channel "
+                "receive order, payload integrity and duplicates (two extra receiver frames) are compared with the Lean model (runLink) "
+                "and with the oracle 'received = sent, per channel, in order'. distinct_nontrivial = distinct cases with >= 4 messages.",
+        "trusted_extra": [
+            "modelled, not verified: std::collections::BinaryHeap (specified as: pop returns a cmp-greatest element; C17_pop_forced shows it is unique), "
+            "TCP stream semantics (receiver passes see whole frames; segmentation / WouldBlock inside read_exact cannot be exhibited by the model), Instant monotonicity",
+        ],
+        "assumptions": ["no ConditionerConfig (the property's premise)", "messages of ordinary size (< 65536 bytes, channel id < 256)"],
+    },
     "C12": {
         "modules": ["Replicon.Props.C12"],
         "theorems": [
@@ -67,6 +90,17 @@ PROPS = {
 }
 
 MANIFEST_TEXT = {
+    "C17": {
+        "text": "Lean theorems about a model of the example backend's receive queue and tcp framing: with the key (timestamp, sequence) — "
+                "scraped from TimedMessage::cmp on every run — an earlier message strictly beats every later one (C17_pop_forced), so for any "
+                "number of messages piling up over any number of receiver passes everything comes out exactly once in sending order "
+                "(C17_exactly_once_in_order, C17_per_channel); frames round-trip and a stream of frames parses back (C17_frame_*). "
+                "The model is tied to the code by constants extraction and by runs over real loopback sockets (400 cases / quick run).",
+        "design_ref": "DESIGN.md §7 C17",
+        "note": "partial: OS behaviour (TCP segmentation, WouldBlock inside read_exact, socket buffer limits, wall-clock Instant) is outside "
+                "the model; BinaryHeap is specified, not modelled. Trusted: Lean kernel, harness/driver, extractor.",
+        "technique": "Lean 4 proof (priority-queue invariant by induction over passes; framing round trip) + constants extraction + socket-level correspondence runs",
+    },
     "C12": {
         "text": "Lean theorems: RepliconTick::cmp equals the order of the unwrapped ticks whenever they are < 2^31 apart (C12_tick_order); "
                 "for every confirmation sequence of any length over unwrapped ticks (gaps beyond the window, across the 2^32 wrap) "
